@@ -259,6 +259,20 @@ theorem c02_missing_subtree_is_sent (wall : Int → Int) (s : Pair) (hs : SrcOk 
     (∀ y, ¬ Below (liveK s.a) e.down y → Same s.b (toRemote wall s { neOf s.a e with parent := P }).b y) :=
   toRemote_sent wall s hs e P he hP1 hP2 hP3 hPb hfresh
 
+/-- **C02 (a subtree missing DOWNSTREAM arrives one level per pass — as the code is).** `sendNodesLocal` sends the upstream
+node to the local store and then lists the children of that id in the LOCAL store (`GetNodes(up.nc, …)`, pinned by
+`gen_sync_pinned`), not upstream. For a node the local store has nothing below (it is being created there) the list is
+empty, so the call is `SendNode` of that one node and nothing else: the children upstream are not looked at in this pass.
+They arrive in the following passes — the node now exists on both sides with different hashes, `syncChildren` descends
+and finds its children missing locally — one level per pass, whereas a subtree missing upstream arrives whole
+(`c02_missing_subtree_is_sent`). The instances still converge (every pass adds a level, and passes keep coming while the
+link is up: `c02_loop_catch_up_while_connected`), so this is recorded as an observation about latency, not as a violation;
+the correspondence run starts with a corpus case (`harness/corpus/C02.cases`: three levels created upstream, three passes) on which the model, which has this behaviour, must reproduce the implementation's dumps. -/
+theorem c02_missing_downstream_arrives_one_level_per_pass (wall : Int → Int) (s : Pair) (n : NE) (hn2 : n.id ≠ rootS) (hn3 : n.id ≠ allS)
+    (h : ∀ e ∈ s.a.edges, e.up ≠ n.id) :
+    toLocal wall s n = { s with a := sendNodeState s.a n (wall s.clk), clk := s.clk + 1 } :=
+  toLocal_one_level wall s n hn2 hn3 h
+
 /-- the child case of `syncChildren` is the instance `P = e.up` (the record sent is the one `getNodes` returned) -/
 example (s : Pair) (e : Edge) : ({ neOf s.a e with parent := e.up } : NE) = neOf s.a e := rfl
 
